@@ -358,70 +358,92 @@ func guardBegin(key, ep, name string, qtype, qclass uint16, transport string) vl
 var errOther = errors.New("upstream said no")
 
 func failClassify(ctxKind string, be bool, mode, latch, mark string) vlib.Res {
+	// Through the real cache writer, not through an accessor: a pipeline edns → cache → stub; the stub
+	// creates the condition (spends the budget, marks its reply, lets the context end) and writes
+	// SERVFAIL; a second client then asks the same question. "Cacheable" = the second client is
+	// answered from the shared failure cache without the stub being reached.
 	raw := [nKinds]uint32{1, 1, 1, 1, 1, 1, 1, 1}
-	p, _ := mustPolicy(mode, raw)
-	base := context.Background()
-	var cancel context.CancelFunc = func() {}
-	switch ctxKind {
-	case "canceled":
-		base, cancel = context.WithCancel(base)
-		cancel()
-	case "deadline":
-		base, cancel = context.WithDeadline(base, time.Unix(1, 0))
+	if r := pipeNew(mode, raw); r.Impl == "invalid" {
+		return r
 	}
-	defer cancel()
-	ctx := middleware.WithResponseMeta(base, new(middleware.ResponseMeta))
-	ctx, _ = middleware.EnsureResolutionAttemptGuard(ctx)
-	ctx, ledger := middleware.EnsureRecursionWork(ctx, p)
+	mp := curPipe
+	st := mp.st
 	overBudget := false
-	if latch != "none" {
-		kind := middleware.RecursionWorkKind(vlib.Atoi(latch[4:]))
-		hard := strings.HasPrefix(latch, "hard")
-		dctx := ctx
-		if !hard {
-			dctx = middleware.WithBestEffortRecursionWork(ctx)
+	st.script = func(ctx context.Context, msg *dns.Msg) {
+		if latch != "none" {
+			kind := middleware.RecursionWorkKind(vlib.Atoi(latch[4:]))
+			hard := strings.HasPrefix(latch, "hard")
+			dctx := ctx
+			if !hard {
+				dctx = middleware.WithBestEffortRecursionWork(ctx)
+			}
+			for i := 0; i < 3; i++ {
+				var err error
+				if aggregateKind[int(kind)] {
+					err = middleware.DebitRecursionWork(dctx, kind)
+				} else {
+					err = middleware.CheckRecursionWorkLocalLimit(dctx, kind, uint32(i))
+				}
+				if err != nil && hard {
+					overBudget = true
+				}
+			}
 		}
-		for i := 0; i < 3; i++ {
-			var err error
-			if aggregateKind[int(kind)] {
-				err = middleware.DebitRecursionWork(dctx, kind)
-			} else {
-				err = middleware.CheckRecursionWorkLocalLimit(dctx, kind, uint32(i))
-			}
-			if err != nil && hard {
-				overBudget = true
-			}
+		var merr error
+		switch mark {
+		case "work":
+			merr = &middleware.RecursionWorkLimitError{Kind: middleware.RecursionWorkOutboundQuery, Limit: 1}
+		case "attempt":
+			merr = &middleware.ResolutionAttemptLimitError{Question: msg.Question[0], Endpoint: "192.0.2.1:53", Transport: "udp"}
+		case "probe":
+			merr = fmt.Errorf("wrapped: %w", middleware.ErrFailureProbeLimit)
+		case "maxrec":
+			merr = middleware.ErrMaxRecursion
+		case "canceled":
+			merr = context.Canceled
+		case "deadline":
+			merr = context.DeadlineExceeded
+		case "other":
+			merr = errOther
+		}
+		if merr != nil {
+			ctx, _ = middleware.EnsureResolutionAttemptGuard(ctx)
+			middleware.MarkRequestLocalFailureResponse(ctx, msg, merr)
+		}
+		switch ctxKind {
+		case "canceled":
+			st.cancel()
+		case "deadline":
+			<-ctx.Done()
 		}
 	}
-	_ = ledger
+	defer func() { st.script = nil }()
+	name := "x.classify.test."
+	req := new(dns.Msg)
+	req.SetQuestion(name, dns.TypeA)
+	req.SetEdns0(1232, false)
+	base := context.Background()
 	if be {
-		ctx = middleware.WithBestEffortRecursionWork(ctx)
+		base = middleware.WithBestEffortRecursionWork(base)
 	}
-	msg := new(dns.Msg)
-	msg.SetQuestion("x.example.", dns.TypeA)
-	msg.Response = true
-	msg.Rcode = dns.RcodeServerFailure
-	var merr error
-	switch mark {
-	case "work":
-		merr = &middleware.RecursionWorkLimitError{Kind: middleware.RecursionWorkOutboundQuery, Limit: 1}
-	case "attempt":
-		merr = &middleware.ResolutionAttemptLimitError{Question: msg.Question[0], Endpoint: "192.0.2.1:53", Transport: "udp"}
-	case "probe":
-		merr = fmt.Errorf("wrapped: %w", middleware.ErrFailureProbeLimit)
-	case "maxrec":
-		merr = middleware.ErrMaxRecursion
-	case "canceled":
-		merr = context.Canceled
-	case "deadline":
-		merr = context.DeadlineExceeded
-	case "other":
-		merr = errOther
+	var ctx context.Context
+	var cancel context.CancelFunc
+	if ctxKind == "deadline" {
+		ctx, cancel = context.WithTimeout(base, 3*time.Millisecond)
+	} else {
+		ctx, cancel = context.WithTimeout(base, 5*time.Second)
 	}
-	if merr != nil {
-		middleware.MarkRequestLocalFailureResponse(ctx, msg, merr)
-	}
-	got := cache.VerifC12CacheableResolutionFailure(ctx, msg)
+	st.cancel = cancel
+	w := mock.NewWriter("udp", "10.3.3.3:3333")
+	ch := mp.p.NewChain()
+	ch.Reset(w, req)
+	ch.Next(ctx)
+	mp.p.PutChain(ch)
+	cancel()
+	st.script = nil
+	before := st.calls.Load()
+	m2 := mp.run(name, true, false, "10.4.4.4:4444")
+	got := st.calls.Load() == before && m2 != nil && m2.Rcode == dns.RcodeServerFailure
 	// property: over-budget, cancelled, best-effort and request-local failures are never cacheable
 	mustNot := ctxKind != "live" || be || overBudget || (mark != "none" && mark != "other")
 	or := "ok"
@@ -444,6 +466,8 @@ type stub struct {
 	nest    bool // recurse through the queryer
 	maxSeen atomic.Int32
 	lastErr atomic.Value
+	script  func(ctx context.Context, reply *dns.Msg) // fail classify: what happens before the SERVFAIL is written
+	cancel  context.CancelFunc
 }
 
 func (s *stub) Name() string                   { return "stub" }
@@ -467,6 +491,14 @@ func (s *stub) ServeDNS(ctx context.Context, ch *middleware.Chain) {
 		}
 		m := new(dns.Msg)
 		m.SetRcode(req, dns.RcodeServerFailure)
+		_ = ch.Writer.WriteMsg(m)
+		ch.Cancel()
+		return
+	}
+	if s.script != nil {
+		m := new(dns.Msg)
+		m.SetRcode(req, dns.RcodeServerFailure)
+		s.script(ctx, m)
 		_ = ch.Writer.WriteMsg(m)
 		ch.Cancel()
 		return
